@@ -57,10 +57,16 @@ def root_schema(schema, defs, tpl, key):
 
 class HarnessFormats(FormatChecker):
     """the custom formats registered by the harness (mode_rt.mjs registerFormats): `f<sub>` = string containing <sub>,
-    `n<k>` = integer multiple of k; a chain `A and B` requires both; any other name is unregistered = never satisfied"""
+    `n<k>` = integer multiple of k, `f2` = both (a string containing "2" / an even integer); a chain `A and B` requires both; any other name is unregistered = never satisfied"""
     def check(self, instance, format):
         for f in format.split(" and "):
-            if f.startswith("f") and f[1:] in ("a", "b", "ab"):
+            if f == "f2":
+                # registered both as a string format (contains "2") and as a number format (even integer)
+                if isinstance(instance, str):
+                    if "2" not in instance: raise FormatError("fmt")
+                elif isinstance(instance, (int, float)) and not isinstance(instance, bool):
+                    if not (float(instance).is_integer() and abs(instance) < 1e15 and int(instance) % 2 == 0): raise FormatError("fmt")
+            elif f.startswith("f") and f[1:] in ("a", "b", "ab"):
                 if isinstance(instance, str) and f[1:] not in instance: raise FormatError("fmt")
             elif f in ("n2", "n3"):
                 if isinstance(instance, (int, float)) and not isinstance(instance, bool):
